@@ -308,11 +308,8 @@ def u_halt_b(ctx):
         "ToolStateError": AND(NOT(bad_arg), tool0),
         "CoolantStateError": AND(NOT(bad_arg), NOT(tool0), cool0),
     }, props=["C02", "C03"])
-    # known finding: the halt mode (and an accepted temperature) is committed before a later parameter is rejected
-    late_reject = AND(NOT(bad_arg), NOT(interlock), OR(bad_temp, nonfinite))
     both = AND(pS, NOT(vS.none), pR, NOT(vR.none))
-    b.generic(known={"C05": ("KF-C05-halt-late-reject", late_reject), "C07": lambda e: ("KF-C05-halt-late-reject", late_reject) if e.kind == "raise" else None,
-                     "C03": ("KF-C03-halt-second-temperature-word", both)})
+    b.generic(known={"C03": ("KF-C03-halt-second-temperature-word", both)})
     for e in b.exits:
         if e.kind == "return":
             b.emits_exactly(e, [modal.GUARDED_HALT[1:]], ["C02", "C07"], "one halt/wait block")
